@@ -39,7 +39,7 @@ let () = iter_lines (fun line ->
     let empty = { OpenTable.bk = (fun _ -> []); OpenTable.bd = (fun _ -> (fun _ -> z_of_int 0)) } in
     let mc = z_of_int 7 in
     let (next, upd, dec) =
-      if kind = "o2" then (Gen_Open2N2.coq_GetNextBucketIndex, OpenInstances.upd2, Gen_Open2N2.pvGetMaxProbe)
+      if kind = "o2" || kind = "o2f" then (Gen_Open2N2.coq_GetNextBucketIndex, OpenInstances.upd2, Gen_Open2N2.pvGetMaxProbe)
       else (Gen_Open8.coq_GetNextBucketIndex, OpenInstances.updN mc, (fun st -> Gen_OpenN1.coq_GetMaxProbe mc st nz)) in
     let full = ref false in
     let st = Stdlib.List.fold_left (fun s (k, _) -> match OpenTable.add nz next capn h upd s k with Some s' -> s' | None -> full := true; s) empty pairs in
